@@ -78,6 +78,7 @@ def Lst(xs):
 
 LIB_SRC = '''
 $Cfg = { base: int };
+$Aux = { shift: int, tag: str };
 let counter = 0;
 let total = 0;
 let name = "init";
@@ -134,6 +135,7 @@ fn early(x: int) -> int { let y = 100 + if x > 0 { return x; } else { 1 }; y }
 fn nested_call(a: int, b: int) -> int { sub(b, a) * 2 + enc3(a, b, 0) }
 fn fact(n: int) -> int { if n <= 1 { 1 } else { n * fact(n - 1) } }
 fn sing(c: $Cfg, a: int, b: int) -> int { c.base + a * 10 + b }
+fn sing2(c: $Cfg, x: $Aux, a: int, b: int) -> int { c.base + x.shift + x.tag.len() + a * 10 + b }
 fn boom(s: str) -> int { throw(s); 1 }
 fn div(a: int, b: int) -> int { a / b }
 fn idx(l: [int], i: int) -> int { l[i] }
@@ -317,6 +319,8 @@ FUNCS = {
                     lambda a, g: ok(I((a[1][1] - a[0][1]) * 2 + a[0][1] * 100 + a[1][1] * 10)), ()),
     "fact": (["dig"], "int", _fact, ()),
     "sing": (["dig", "dig"], "int", lambda a, g: ok(I(0 + a[0][1] * 10 + a[1][1])), ()),
+    # two singleton parameters of different singletons: each is bound to its own singleton
+    "sing2": (["dig", "dig"], "int", lambda a, g: ok(I(0 + a[0][1] * 10 + a[1][1])), ()),
     "boom": (["str"], "int", lambda a, g: fail("UncaughtThrow", a[0][1]), ("fails",)),
     "div": (["int", "divisor"], "int",
             lambda a, g: fail("ValueError") if a[1][1] == 0 else ok(I(go_div(a[0][1], a[1][1]))), ("fails",)),
@@ -534,6 +538,10 @@ INFINITE_BODIES = [
     'loop { for i in 0..10 { let x = sq(i); } }',
     'try { loop { } } catch e { print("never"); }',
     'loop { try { time.sleep(0.01); } catch e { print("never"); } }',
+    # ONE very long sleep: the blocking builtin itself notices the cancellation within its polling interval, however long
+    # the sleep is
+    'print("a"); time.sleep(100000.0); print("never");',
+    'time.sleep(3000000.0);',
 ]
 
 INF_HELPERS = '''
